@@ -180,7 +180,10 @@ def mass(torch, flow, D, ctx_row, panels):
                 mu = base.mean_.reshape(1, -1)
             else:
                 mu = torch.zeros(1, D, dtype=torch.float64)
-            x0 = flow._transform.inverse(mu.double(), ctx_row)[0]
+            # (on a copy: the flow under test keeps the cache state its history left it in)
+            import copy as _copy
+
+            x0 = _copy.deepcopy(flow)._transform.inverse(mu.double(), ctx_row)[0]
             t0s = [float(v) for v in torch.asinh(x0).reshape(-1)]
     except Exception:
         pass
@@ -316,6 +319,26 @@ def flow_task(t):
                     out["skipped"].append("flow %s | %s: several clamped Logit stages, no exact accounting" % (names, case["base"]))
                     break
                 if tot != tot:
+                    # no number: either the cubature did not converge, or the density itself is not a number at
+                    # ordinary points although the same flow, freshly evaluated without any history, has one there
+                    nan_here = False
+                    if onto and hist != "plain":
+                        try:
+                            with torch.no_grad():
+                                xp = 0.7 * torch.randn(6, D, dtype=torch.float64, generator=torch.Generator().manual_seed(seed + 17))
+                                cp = c.expand(6, -1) if c is not None else None
+                                ref = build_flow(torch, st, D, seed)
+                                for mod in ref.modules():
+                                    if isinstance(mod, Linear):
+                                        mod.use_cache(False)
+                                a_ = ref.log_prob(xp, cp) if cp is not None else ref.log_prob(xp)
+                                b_ = flow_used.log_prob(xp, cp) if cp is not None else flow_used.log_prob(xp)
+                                nan_here = hist != "after_load" and bool((torch.isfinite(a_) & ~torch.isfinite(b_)).any())
+                        except Exception:  # noqa
+                            nan_here = False
+                    if nan_here:
+                        out["fails"].append(dict(case, hist=hist, clause="not_normalised", detail="flow %s | %s (D=%d, %s): log_prob is not a number at ordinary points where the same flow without that history returns finite values" % (" -> ".join(names), case["base"], D, hist)))
+                        break
                     out["skipped"].append("flow %s | %s (D=%d): the adaptive cubature did not converge" % (names, case["base"], D))
                     break
                 if onto and not abs(tot - want) <= tol:
